@@ -38,7 +38,7 @@ def cfg_hook(rng, cfg, fam, i):
 
 
 def gen_cases(tier, seed):
-    fams = ["stripe-stress", "buffer-stress", "lut-stress", "alias-stress", "exact-chain", "exact-dag", "cpu-mix", "approx-tail", "exact-chain-big", "stripe-stress", "buffer-stress", "lut-stress", "stripe-resize", "shared-weights", "buffer-stress", "mixed-width"]
+    fams = ["stripe-stress", "buffer-stress", "lut-stress", "alias-stress", "exact-chain", "exact-dag", "cpu-mix", "approx-tail", "exact-chain-big", "stripe-stress", "buffer-stress", "lut-stress", "stripe-resize", "shared-weights", "buffer-stress", "mixed-width", "cpu-mix"]
     return campaign.gen_cases(tier, seed, 3, 420, 12000, families=fams, cfg_hook=cfg_hook)
 
 
@@ -152,6 +152,28 @@ def writer_tags(c, log, viol, counters):
                                    "witness": c.witness()})
 
 
+def writer_tags_model(c, log, viol, counters):
+    """monitor 2 carried across the inference: graph inputs, CPU operators and all Ethos-U operators of the output model in execution order share one arena shadow,
+    so that a tensor overwritten in one stream and read in a later one (or by way of a CPU operator) is seen"""
+    if len(log.calls) < 1 or c.art.offsets is None:
+        return
+    c2 = {}
+    try:
+        found = defuse.tag_replay_model(log.calls, c.art, c.case["cfg"]["acc"], c2)
+    except (ValueError, KeyError, IndexError):
+        counters["tag_model_unmodelled"] = counters.get("tag_model_unmodelled", 0) + 1
+        return
+    for k in ("tag_model_streams", "tag_model_cpu_ops", "tag_model_streams_unmatched"):
+        if k in c2:
+            counters[k] = counters.get(k, 0) + c2[k]
+    if c2.get("tag_model_streams", 0) >= 2:
+        counters["tag_models_with_several_streams"] = counters.get("tag_models_with_several_streams", 0) + 1
+    for f in found[:3]:
+        mech = "read-of-bytes-last-written-for-another-tensor:%s:across-operators" % f["part"]
+        viol.setdefault(mech, {"mech": mech, "msg": "%s reads %s %s at region %s %s, but those bytes were last written as %s (earlier stream / CPU operator / graph input)" % (
+            f["op"], f["part"], f["want"], f["region"], f["first"], f["found"]), "witness": c.witness()})
+
+
 def run_case(case):
     from vv import compile as vc
 
@@ -164,6 +186,7 @@ def run_case(case):
             counters["compiled_ok"] = 1
             check(c, viol, counters)
             writer_tags(c, log, viol, counters)
+            writer_tags_model(c, log, viol, counters)
             poison_differential(c, viol, counters)
     finally:
         c.cleanup()
@@ -177,7 +200,7 @@ def summarise(agg, tier):
     return {
         "thresholds": {"compiled_ok": 300 if q else 9000, "ops_replayed": 5000 if q else 150000, "bytes_read_checked": 5000000 if q else 200000000, "lut_dmas": 50 if q else 2000,
                        "lut_reads": 100 if q else 4000, "npu_outputs_checked": 300 if q else 9000, "poison_differentials": 250 if q else 7000,
-                       "tagged_reads_checked": 4000 if q else 120000, "tagged_reads_of_stream_written_bytes": 2500 if q else 80000, "tagged_weight_slices": 300 if q else 9000},
+                       "tagged_reads_checked": 4000 if q else 120000, "tagged_reads_of_stream_written_bytes": 2500 if q else 80000, "tagged_weight_slices": 300 if q else 9000, "tag_model_streams": 300 if q else 9000, "tag_models_with_several_streams": 8 if q else 250},
         "rule": "compile campaign over cascade-heavy (stripe-stress), buffering-heavy (buffer-stress), LUT-heavy (lut-stress, half on accelerators without reserved LUT banks), "
                 "alias-prone, CPU/NPU-interleaved and regular families x random configurations with small caches; every read of every decoded operation is checked per byte "
                 "interval against the shadow 'defined' set. distinct = (family, accelerator, cache, ops replayed) classes",
